@@ -777,6 +777,12 @@ func (t *Terminal) readLine() (line string, err error) {
 		// t.remainder is a slice at the beginning of t.inBuf
 		// containing a partial key sequence
 		readBuf := t.inBuf[len(t.remainder):]
+		if len(readBuf) == 0 {
+			// the buffer is full of a key sequence that never ends: it is
+			// not a key, drop it (reading zero bytes would spin here forever)
+			t.remainder = nil
+			readBuf = t.inBuf[:]
+		}
 		var n int
 
 		t.lock.Unlock()
